@@ -51,6 +51,7 @@ strengthened = {
  "C15-9": "missed at first by C15 (whose recognizer is unchanged; caught by C06): the model lengthened the fence for any fence-like content; it may now use the shortest fence by the exact closing-fence rule, with indented fence-like content lines",
  "C17-10": "missed at first by C17 (caught by C10): C17 never set IgnoreRaw; configuration added",
  "C18-9": "missed at first: documents without blocks were skipped; walks over the zero Node of an empty document (virtual root and library defaults) added",
+ "C02-9": "missed at first: no backslash before a non-ASCII character inside an info string; backslash before non-ASCII / NUL / invalid bytes added in every place where escapes are processed (info strings, destinations, titles, labels, attribute values, code spans)",
  "C19-4": "missed at first: batches had no long destination that needs percent-encoding; rare-path constructs added to every batch",
 }
 rows = []
